@@ -2295,7 +2295,7 @@ void xmp_get_frame_info(xmp_context opaque, struct xmp_frame_info *info)
 	info->bpm = p->bpm;
 	info->total_time = p->scan[p->sequence].time;
 	info->frame_time = p->frame_time * 1000;
-	info->time = p->current_time;
+	info->time = p->current_time > (double)INT_MAX ? INT_MAX : (int)p->current_time;
 	info->buffer = s->buffer;
 
 	info->total_size = XMP_MAX_FRAMESIZE;
